@@ -78,6 +78,10 @@ retry_from_root:
 
     if (root == nullptr) { return status::OK_ROOT_IS_NULL; }
     std::string_view traverse_key_view{l_key};
+    if (l_end == scan_endpoint::INF) {
+        // the left end is unbounded: l_key is ignored, start from the leftmost border.
+        traverse_key_view = std::string_view{};
+    }
 
     /**
      * prepare key_slice
